@@ -3,7 +3,9 @@
 Model: coq/theories/Subfield/IntAdapters.v (integer serializers); per-key instances are generated
 from the live registry (harness/translate/c09_registry.py -> coq/gen/C09_gen.v).  Byte-payload
 serializers, the date adapters and the quantised TimeDilation adapter are decided by the
-implementation-level oracle below only."""
+implementation-level oracle below only.  The oracle also probes that decoding is a function of
+(serializer, context values, wire value) - no result shared between calls, no dependence on what a
+caller did to an earlier result (harness/translate/c09_purity.py, check_purity below)."""
 from __future__ import annotations
 
 import ast
